@@ -26,7 +26,7 @@ NO = 13
 RULE = ("seeded cases: real-space mask up to 6x6 (<= 30 pixels), anisotropic pixel scales, origin, 1..12 (u,v) baselines with the zero "
         "baseline and a duplicate, magnitudes log-uniform 1e2..1e6 wavelengths; a case = (mask, scales, origin, baselines); distinct by "
         "their hash; non-trivial = >= 2 unmasked pixels and >= 2 distinct non-zero baselines")
-BOUNDS = {"quick": "600 operators x (2 preload settings, 4 matrix kinds, 2 storage forms) + 300 interferometer inversions",
+BOUNDS = {"quick": "600 operators x (2 preload settings, 5 matrix kinds, 2 storage forms, second round after the adjoint) + 300 interferometer inversions (every 5th on a point-symmetric mask with dipole columns)",
           "thorough": "40000 operators + 20000 inversions"}
 EXHAUSTIVE = {"quick": False, "thorough": False}
 ASSUMPTIONS = ["pylops is absent: a stand-in module with an empty LinearOperator base class is injected before import (allowed by the property)",
